@@ -92,9 +92,9 @@ void pbt_warmup() {
 
 void pbt_generate(Rng& r, int size, Case& c) {
   int n = 2 + (int)r.below((uint64_t)std::min(size, 12) + 1);
-  static const char* names[] = {"est", "rm", "run", "wait", "burst"};
-  static const int w[] = {10, 6, 6, 6, 1};
-  for (int k = 0; k < n; ++k) c.add(names[r.weighted(w, 5)], (long)r.below(NES), (long)r.below(64), (long)r.below(8));
+  static const char* names[] = {"est", "rm", "run", "wait", "burst", "intr"};
+  static const int w[] = {10, 6, 6, 6, 1, 1};
+  for (int k = 0; k < n; ++k) c.add(names[r.weighted(w, 6)], (long)r.below(NES), (long)r.below(64), (long)r.below(8));
   int nr = (int)r.below(4); for (int k = 0; k < nr; ++k) c.add(r.chance(70) ? "r_rm" : "r_new", (long)r.below(NES), (long)r.below(2));
 }
 
@@ -116,6 +116,18 @@ void pbt_run(const Case& cs, Ctx& ctx) {
     else if (op.name == "rm") h.removeEst((int)(a % NES), "script");
     else if (op.name == "run") { h.runFor(1 + b % 4); ctx.label("run"); }
     else if (op.name == "wait") { usleep((useconds_t)(b % 8) * 150); }
+    else if (op.name == "intr") {
+      // interrupt() while the wake-up of a finished look-up is still pending (both go through the one event descriptor): the next
+      // run() has to return because of the interrupt - a distant watchdog tells when it did not
+      h.newEst((int)(a % NES), false); usleep(40000);   // (long enough for the look-up to be over)
+      server->interrupt();
+      struct Late : public Server::Timer::ICallback { Server* s; bool fired = false; void onActivated() override { fired = true; s->interrupt(); } } late; late.s = server;
+      int64 r0 = Time::ticks();
+      Server::Timer* t = server->time(3000, late); server->run(); server->remove(*t);
+      // (the loop may notice the pending interrupt when the watchdog's time-out wakes it, before it runs the timer: the elapsed time tells)
+      if (late.fired || Time::ticks() - r0 >= 2000) { ctx.opIndex = -2; ctx.fail("run:interrupt-ignored", "interrupt() was called before run() while a finished host-name look-up was waiting to be handed on: run() did not return within 3 s"); }
+      ctx.label("interrupt_with_pending_lookup");
+    }
     else if (op.name == "burst") {
       // several look-ups finish before the loop runs (their wake-ups through the one event descriptor merge into one): the loop
       // must hand all of them on when it wakes up, not one per wake-up. No timer runs meanwhile except a distant watchdog; the
